@@ -290,5 +290,15 @@ PROPS['C18'] = dict(
   units=[U('land_pointwise_m2', 'C18_landscape.cpp', ['VP_M=2', 'VP_MODE=0'], weight=5, must_reach=['end', 'pointwise']), U('land_algebra_m2', 'C18_landscape.cpp', ['VP_M=2', 'VP_MODE=1'], weight=10, must_reach=['end', 'algebra']),
          U('land_pointwise_m3', 'C18_landscape.cpp', ['VP_M=3', 'VP_MODE=0'], tiers=['thorough'], weight=30, must_reach=['end']), U('land_algebra_m3', 'C18_landscape.cpp', ['VP_M=3', 'VP_MODE=1'], tiers=['thorough'], weight=60, must_reach=['end'])])
 
+# ------------------------------------------------------------------------------------------------ C19
+def _c19(name, n, seed, extra=(), tiers=('quick', 'thorough'), weight=5):
+    return U(name, 'C19_sparse_rips.cpp', ['VP_N=%d' % n] + list(extra), tiers=tiers, weight=weight, vpsx_args=['--random-device', str(seed)], env={'VP_RANDOM_DEVICE': str(seed)})
+PROPS['C19'] = dict(
+  explanation='Bounded symbolic execution of the real Sparse_rips_complex (choose_n_farthest_points_metric, compute_sparse_graph, create_complex with the blocker expansion of Simplex_tree; clang IR of the headers in /repo): the finite metric (grid distances under the triangle inequality) and epsilon are forked to concrete dyadic values by the solver, std::random_device is an environment stub; every simplex must be a Rips simplex not earlier than its diameter, the complex must be face-closed and monotone (also for epsilon >= 1 and finite mini/maxi), and the persistence diagrams of the sparse and the full Rips filtrations (dense Z_2 oracle in the harness) must be within multiplicative bottleneck distance 1/(1-epsilon) in every dimension (brute-force matching).',
+  bounds=dict(quick='n=3 and n=4 points, distances in {1,1.5,2,2.5,3} satisfying the triangle inequality, epsilon in {1/4,1/2,3/4}; validity clause also for epsilon in {1,2} and mini=1.5 / maxi=2; three random-device values (different starting points)', thorough='n=5 with distances in {1,1.5,2}'),
+  outside=['point-cloud input with Euclidean distances of symbolic coordinates', 'epsilon off the listed values', 'more than 5 points'],
+  units=[_c19('srips_n3_seed0', 3, 0), _c19('srips_n4_seed0', 4, 0, weight=10), _c19('srips_n4_seed7', 4, 7, weight=10), _c19('srips_n4_seed12345', 4, 12345, weight=10), _c19('srips_n4_validity', 4, 3, extra=['VP_VALIDITY_ONLY', 'VP_GRIDN=3'], weight=10), _c19('srips_n3_validity', 3, 5, extra=['VP_VALIDITY_ONLY'], weight=4),
+         _c19('srips_n5', 5, 1, extra=['VP_GRIDN=3'], tiers=['thorough'], weight=60)])
+
 NOT_APPLICABLE = {}
 NOTES = 'Clauses outside every claim: real thread schedules/TBB execution (engine is sequential), iostream text I/O, GMP arbitrary precision, Eigen-based Coxeter point location under general affine maps, SIMD paths of boost::unordered_flat_map (compiled with -U__SSE2__), allocation failure, inputs beyond the stated bounds.'
